@@ -40,6 +40,15 @@ Alloc(m, o) == [m |-> [m EXCEPT !.heap = Append(@, o)], a |-> Len(m.heap) + 1]
 NewList(m, items) ==
     LET x == Alloc(m, [kind |-> "list", items |-> items, locks |-> 0, frozen |-> FALSE])
     IN R(x.m, RefV(x.a))
+NewSet(m, items) ==
+    LET x == Alloc(m, [kind |-> "set", items |-> items, locks |-> 0, frozen |-> FALSE])
+    IN R(x.m, RefV(x.a))
+(* first occurrences, in order *)
+RECURSIVE Dedup(_, _, _, _)
+Dedup(items, i, acc, h) ==
+    IF i > Len(items) THEN acc
+    ELSE IF DictFindIn(acc, items[i], h) # 0 THEN Dedup(items, i + 1, acc, h)
+    ELSE Dedup(items, i + 1, Append(acc, items[i]), h)
 NewDict(m, keys, vals) ==
     LET x == Alloc(m, [kind |-> "dict", keys |-> keys, vals |-> vals, locks |-> 0, frozen |-> FALSE])
     IN R(x.m, RefV(x.a))
@@ -47,7 +56,7 @@ Absent(x) == x.k = "absent"
 IntOk(i) == i > -Limit /\ i < Limit
 RInt(m, i, line) == IF IntOk(i) THEN R(m, IntV(i)) ELSE R(Raise(m, "spec_domain", line), NoneV)
 
-Builtins == {"len", "range", "list", "tuple", "bool", "int", "str", "repr", "type", "sorted",
+Builtins == {"set", "len", "range", "list", "tuple", "bool", "int", "str", "repr", "type", "sorted",
              "reversed", "enumerate", "zip", "min", "max", "any", "all", "abs", "fail", "emit", "dict"}
 
 (* ------------------------------------------------------------------ names and frames *)
@@ -103,6 +112,7 @@ IterOf(v, h) ==
     ELSE IF v.t = "range" THEN [ok |-> TRUE, items |-> RangeItems(v), a |-> 0]
     ELSE IF IsList(v, h) THEN [ok |-> TRUE, items |-> h[v.a].items, a |-> v.a]
     ELSE IF IsDict(v, h) THEN [ok |-> TRUE, items |-> h[v.a].keys, a |-> v.a]
+    ELSE IF IsSet(v, h) THEN [ok |-> TRUE, items |-> h[v.a].items, a |-> v.a]
     ELSE [ok |-> FALSE, items |-> <<>>, a |-> 0]
 
 (* ------------------------------------------------------------------ dict helpers *)
@@ -134,6 +144,9 @@ In(x, c, m, line) ==       \* x in c
     ELSE IF IsDict(c, h) THEN
         (IF ~Hashable(x, h) THEN R(Raise(m, "not_hashable", line), NoneV)
          ELSE R(m, BoolV(DictFindIn(h[c.a].keys, x, h) # 0)))
+    ELSE IF IsSet(c, h) THEN
+        (IF ~Hashable(x, h) THEN R(Raise(m, "not_hashable", line), NoneV)
+         ELSE R(m, BoolV(DictFindIn(h[c.a].items, x, h) # 0)))
     ELSE IF c.t = "str" THEN
         (IF x.t = "str" THEN R(m, BoolV(FindFrom(c.s, x.s, 0) # -1)) ELSE R(Raise(m, "type", line), NoneV))
     ELSE IF c.t = "range" THEN
@@ -161,8 +174,11 @@ BinOp(op, l, r, m, line) ==
          ELSE IF l.t = "tuple" /\ r.t = "tuple" THEN R(m, TupV(l.v \o r.v))
          ELSE IF IsList(l, h) /\ IsList(r, h) THEN NewList(m, h[l.a].items \o h[r.a].items)
          ELSE TErr)
+    ELSE IF op \in {"&", "|", "^", "<<", ">>"} THEN R(Raise(m, "spec_domain", line), NoneV)
     ELSE IF op = "-" THEN
-        (IF l.t = "int" /\ r.t = "int" THEN RInt(m, l.v - r.v, line) ELSE TErr)
+        (IF l.t = "int" /\ r.t = "int" THEN RInt(m, l.v - r.v, line)
+         ELSE IF IsSet(l, h) /\ IsSet(r, h) THEN R(Raise(m, "spec_domain", line), NoneV)
+         ELSE TErr)
     ELSE IF op = "*" THEN
         (IF l.t = "int" /\ r.t = "int" THEN
             (IF Abs(l.v) < 32768 /\ Abs(r.v) < 32768 THEN RInt(m, l.v * r.v, line)
@@ -618,7 +634,7 @@ CallBuiltin(name, pos, named, m, line) ==
               IF v.t = "str" THEN R(m, IntV(Len(v.s)))
               ELSE IF v.t = "tuple" THEN R(m, IntV(Len(v.v)))
               ELSE IF v.t = "range" THEN R(m, IntV(RangeLen(v)))
-              ELSE IF IsList(v, h) THEN R(m, IntV(Len(h[v.a].items)))
+              ELSE IF IsList(v, h) \/ IsSet(v, h) THEN R(m, IntV(Len(h[v.a].items)))
               ELSE IF IsDict(v, h) THEN R(m, IntV(Len(h[v.a].keys)))
               ELSE TypeE(m, line))
     ELSE IF name = "range" THEN
@@ -632,6 +648,13 @@ CallBuiltin(name, pos, named, m, line) ==
         (IF n > 1 \/ Len(named) # 0 THEN Arity(m, line)
          ELSE IF n = 0 THEN NewList(m, <<>>)
          ELSE LET io == IterOf(pos[1], h) IN IF io.ok THEN NewList(m, io.items) ELSE TypeE(m, line))
+    ELSE IF name = "set" THEN
+        (IF n > 1 \/ Len(named) # 0 THEN Arity(m, line)
+         ELSE IF n = 0 THEN NewSet(m, <<>>)
+         ELSE LET io == IterOf(pos[1], h) IN
+              IF ~io.ok THEN TypeE(m, line)
+              ELSE IF \E i \in 1..Len(io.items) : ~Hashable(io.items[i], h) THEN R(Raise(m, "not_hashable", line), NoneV)
+              ELSE NewSet(m, Dedup(io.items, 1, <<>>, h)))
     ELSE IF name = "tuple" THEN
         (IF n > 1 \/ Len(named) # 0 THEN Arity(m, line)
          ELSE IF n = 0 THEN R(m, TupV(<<>>))
@@ -806,6 +829,48 @@ CallMethod(o, name, pos, named, m, line) ==
                   IF ~Ok(m1) THEN R(m1, NoneV)
                   ELSE R([m EXCEPT !.heap[o.a].keys = <<>>, !.heap[o.a].vals = <<>>], NoneV))
          ELSE Attr)
+    ELSE IF IsSet(o, h) THEN
+        (LET items == h[o.a].items IN
+         IF name = "add" THEN
+            (IF n # 1 THEN Arity(m, line)
+             ELSE IF ~Hashable(pos[1], h) THEN R(Raise(m, "not_hashable", line), NoneV)
+             ELSE LET m1 == CanMutate(m, o.a, line) IN
+                  IF ~Ok(m1) THEN R(m1, NoneV)
+                  ELSE IF DictFindIn(items, pos[1], h) # 0 THEN R(m, NoneV)
+                  ELSE R([m EXCEPT !.heap[o.a].items = Append(@, pos[1])], NoneV))
+         ELSE IF name = "remove" \/ name = "discard" THEN
+            (IF n # 1 THEN Arity(m, line)
+             ELSE IF ~Hashable(pos[1], h) THEN R(Raise(m, "not_hashable", line), NoneV)
+             ELSE LET m1 == CanMutate(m, o.a, line) j == DictFindIn(items, pos[1], h) IN
+                  IF ~Ok(m1) THEN R(m1, NoneV)
+                  ELSE IF j = 0 THEN (IF name = "remove" THEN R(Raise(m, "key", line), NoneV) ELSE R(m, NoneV))
+                  ELSE R([m EXCEPT !.heap[o.a].items = RemoveIdx(items, j)], NoneV))
+         ELSE IF name = "pop" THEN
+            (IF n # 0 THEN Arity(m, line)
+             ELSE LET m1 == CanMutate(m, o.a, line) IN
+                  IF ~Ok(m1) THEN R(m1, NoneV)
+                  ELSE IF Len(items) = 0 THEN R(Raise(m, "value", line), NoneV)
+                  ELSE R([m EXCEPT !.heap[o.a].items = SubSeq(items, 1, Len(items) - 1)], items[Len(items)]))
+         ELSE IF name = "clear" THEN
+            (IF n # 0 THEN Arity(m, line)
+             ELSE LET m1 == CanMutate(m, o.a, line) IN
+                  IF ~Ok(m1) THEN R(m1, NoneV) ELSE R([m EXCEPT !.heap[o.a].items = <<>>], NoneV))
+         ELSE IF name = "update" THEN
+            (IF n # 1 THEN R(Raise(m, "spec_domain", line), NoneV)
+             ELSE LET io == IterOf(pos[1], h) m1 == CanMutate(m, o.a, line) IN
+                  IF ~io.ok THEN TypeE(m, line)
+                  ELSE IF \E i \in 1..Len(io.items) : ~Hashable(io.items[i], h) THEN R(Raise(m, "not_hashable", line), NoneV)
+                  ELSE IF ~Ok(m1) THEN R(m1, NoneV)
+                  ELSE R([m EXCEPT !.heap[o.a].items = Dedup(items \o io.items, 1, <<>>, h)], NoneV))
+         ELSE IF name = "union" THEN
+            (IF n # 1 THEN R(Raise(m, "spec_domain", line), NoneV)
+             ELSE LET io == IterOf(pos[1], h) IN
+                  IF ~io.ok THEN TypeE(m, line)
+                  ELSE IF \E i \in 1..Len(io.items) : ~Hashable(io.items[i], h) THEN R(Raise(m, "not_hashable", line), NoneV)
+                  ELSE NewSet(m, Dedup(items \o io.items, 1, <<>>, h)))
+         ELSE IF name \in {"intersection", "difference", "symmetric_difference", "issubset", "issuperset"} THEN
+            R(Raise(m, "spec_domain", line), NoneV)
+         ELSE Attr)
     ELSE IF o.t = "str" THEN
         (IF name = "upper" THEN (IF n # 0 THEN Arity(m, line) ELSE R(m, StrV(Upper(o.s))))
          ELSE IF name = "lower" THEN (IF n # 0 THEN Arity(m, line) ELSE R(m, StrV(Lower(o.s))))
@@ -878,7 +943,7 @@ RunSession(chunks, cap, tr) ==
    enclosing frame and bind their own names in a fresh frame; each importer is a session. *)
 FreezeAll(m) ==
     [m EXCEPT !.heap = [a \in 1..Len(m.heap) |->
-                          IF m.heap[a].kind \in {"list", "dict"} THEN [m.heap[a] EXCEPT !.frozen = TRUE] ELSE m.heap[a]]]
+                          IF m.heap[a].kind \in {"list", "dict", "set"} THEN [m.heap[a] EXCEPT !.frozen = TRUE] ELSE m.heap[a]]]
 RECURSIVE RunImporters(_, _, _, _, _)
 RunImporters(mods, i, frA, m, acc) ==
     IF i > Len(mods) THEN acc
@@ -893,6 +958,28 @@ RunFrozen(chunkA, mods, cap) ==
         f == FreezeAll([a.m EXCEPT !.out = <<>>])
     IN [a |-> [out |-> a.m.out, err |-> a.m.err],
         mods |-> IF Ok(a.m) THEN RunImporters(mods, 1, fr.a, f, <<>>) ELSE <<>>]
+
+(* a chain: A is frozen; B loads from A, is evaluated and frozen; the importers load from B.
+   (Names never clash between the modules of a case, so the importers' environment is simply
+   <<own frame, B's frame, A's frame>>.) *)
+RECURSIVE RunImporters2(_, _, _, _, _, _)
+RunImporters2(mods, i, frB, frA, m, acc) ==
+    IF i > Len(mods) THEN acc
+    ELSE LET names == SetToSeq(AssignedChunks(mods[i], 1))
+             fr == NewFrame(m, names, [j \in 1..Len(names) |-> UnboundV])
+             r == RunChunks(mods[i], 1, <<fr.a, frB, frA>>, fr.m, <<>>)
+         IN RunImporters2(mods, i + 1, frB, frA, r.m, Append(acc, r.res))
+RunFrozenChain(chunkA, chunkB, mods, cap) ==
+    LET namesA == SetToSeq(AssignedS(chunkA, 1))
+        frA == NewFrame(M0(cap, FALSE), namesA, [i \in 1..Len(namesA) |-> UnboundV])
+        a == ExecB(chunkA, 1, <<frA.a>>, frA.m)
+        fa == FreezeAll(a.m)
+        namesB == SetToSeq(AssignedS(chunkB, 1))
+        frB == NewFrame(fa, namesB, [i \in 1..Len(namesB) |-> UnboundV])
+        b == ExecB(chunkB, 1, <<frB.a, frA.a>>, frB.m)
+        fb == FreezeAll([b.m EXCEPT !.out = <<>>])
+    IN [a |-> [out |-> b.m.out, err |-> b.m.err],      \* everything emitted before B is frozen
+        mods |-> IF Ok(b.m) THEN RunImporters2(mods, 1, frB.a, frA.a, fb, <<>>) ELSE <<>>]
 
 SessionInDomain(res) == \A i \in 1..Len(res) : res[i].err.kind # "spec_domain"
 =============================================================================
